@@ -42,3 +42,24 @@ Example nested_lock_rejected :
   ext_mutex_free {| l_file := "map.rs"; l_fn := "x"; l_line := 1%N; l_recv := "a.lock"; l_guard := "g";
                     l_explicit_drop := true; l_end := 2%N; l_calls := ["put/4"]; l_blocking := []; l_clone_recvs := [] |} = false.
 Proof. vm_compute. reflexivity. Qed.
+
+(* ---------- tree-bin write lock ---------- *)
+Lemma relaxed_stores_inside_write_lock_true : relaxed_stores_inside_write_lock = true.
+Proof. vm_compute. reflexivity. Qed.
+Lemma relaxed_stores_only_in_known_functions_true : relaxed_stores_only_in_known_functions = true.
+Proof. vm_compute. reflexivity. Qed.
+Lemma helpers_called_under_write_lock_true : helpers_called_under_write_lock = true.
+Proof. vm_compute. reflexivity. Qed.
+Lemma lockers_well_bracketed_true : lockers_well_bracketed = true.
+Proof. vm_compute. reflexivity. Qed.
+Lemma lockers_exist_true : lockers_exist = true.
+Proof. vm_compute. reflexivity. Qed.
+
+Lemma every_relaxed_store_ok : forall s, In s relaxed_stores_node_rs -> store_ok s = true /\ store_fn_ok s = true.
+Proof.
+  intros s Hs. split.
+  - pose proof relaxed_stores_inside_write_lock_true as H. unfold relaxed_stores_inside_write_lock in H.
+    rewrite forallb_forall in H. exact (H s Hs).
+  - pose proof relaxed_stores_only_in_known_functions_true as H. unfold relaxed_stores_only_in_known_functions in H.
+    rewrite forallb_forall in H. exact (H s Hs).
+Qed.
